@@ -373,6 +373,10 @@ def sanitize(S):
                     ds.append(ds[-1] + 1.0)
                 s[key] = ds
                 s["off"] = round(s["off"] * 4) / 4
+    # KF-E: jockeying (after reneging) into a node with finite capacity ignores that capacity
+    for rt in S["routing"].values():
+        if rt["k"] == "net" and rt.get("jockey"):
+            rt["jockey"] = [(-1 if (d != -1 and S["qcap"][d - 1] != INF) else d) for d in rt["jockey"]]
     blocking = any(q != INF for q in S["qcap"])
     for j, s in enumerate(S["servers"], 1):
         # KF-A: a pre-emptive shift end / capacitated pre-emptive slot interrupting a BLOCKED customer
@@ -441,6 +445,9 @@ def features(S):
             f.add(name)
     if S["tracker"]:
         f.add("tr:" + S["tracker"]["k"])
+    for rt in S["routing"].values():
+        if rt["k"] == "net" and rt.get("jockey") and any(d != -1 and S["qcap"][d - 1] != INF for d in rt["jockey"]):
+            f.add("jockey-into-finite-node")
     if "ps" in f and "qcap" in f:
         f.add("ps+blocking")
     if S.get("exact"):
